@@ -6,7 +6,7 @@ from h5 import gen, lean, wire
 
 ID = "C13"
 PROPS_MODULE = "H5.Props.C13"
-EXTRA_PROPS_MODULES = ["H5.Props.C13b"]
+EXTRA_PROPS_MODULES = ["H5.Props.C13b", "H5.Props.C07"]   # C07: position of the filter in the extracted serializer pipeline
 GEN_MODULES = ["OptionalTags"]
 CORRESPONDENCE_OPS = ["fn:isOptionalStart", "fn:isOptionalEnd", "optfilter"]
 SOURCES = ["html5lib/filters/optionaltags.py"]
@@ -268,6 +268,83 @@ def run(ctx):
         ctx.count("len=%d" % min(len(toks), 12))
     if ctx.driver_ok:
         ctx.compare("optfilter", reqs, reals, lean.run_driver(reqs))
+    pipeline_oracle(ctx)
+
+
+def pipeline_oracle(ctx):
+    """the filter inside the serializer pipeline (after whitespace stripping and sanitizing, before attribute sorting):
+    for conforming documents the output with omission re-parses to the same tree as the output without, whatever the
+    other filters do to the stream before it"""
+    import html5lib
+    from html5lib.serializer import HTMLSerializer
+    from h5 import conf, trees
+    extra = ["<main><p>hello</p></main><p>after</p>", "<hgroup><h1>t</h1><p>x</p></hgroup><p>y</p>", "<ruby><rt>a</rt></ruby><ul><li>x</li></ul>",
+             "<object data=x><p>in</p></object><p>out</p>", "<table><tbody><tr><td>1</td></tr></tbody></table><!--c--><p>z</p>"]
+    def outcome(text, opts):
+        # the full tree: the doctype must be written too (without it the re-parse is in quirks mode, where <table> does not close p)
+        t0 = gen.parse_real(text, tb="etree", full=True)
+        w = html5lib.getTreeWalker("etree")
+        a = HTMLSerializer(omit_optional_tags=False, **opts).render(w(t0))
+        b = HTMLSerializer(omit_optional_tags=True, **opts).render(w(t0))
+        ta = trees.merge_text(trees.from_etree(gen.parse_real(a, tb="etree", full=True)))
+        tb = trees.merge_text(trees.from_etree(gen.parse_real(b, tb="etree", full=True)))
+        return ta != tb, a, b
+
+    def shrink_doc(doc, opts):
+        """greedy: delete one child / attribute / replace an element by its children while the outcome still differs"""
+        def variants(t):
+            if t[0] in ("doc", "frag"):
+                for j in range(len(t[1])):
+                    for v in variants(t[1][j]):
+                        yield (t[0], t[1][:j] + [v] + t[1][j + 1:])
+            elif t[0] == "elem":
+                kids = t[4]
+                for j in range(len(kids)):
+                    yield ("elem", t[1], t[2], t[3], kids[:j] + kids[j + 1:])
+                    if kids[j][0] == "elem" and t[2] not in ("html",):
+                        yield ("elem", t[1], t[2], t[3], kids[:j] + list(kids[j][4]) + kids[j + 1:])
+                for j in range(len(t[3])):
+                    yield ("elem", t[1], t[2], t[3][:j] + t[3][j + 1:], kids)
+                for j in range(len(kids)):
+                    for v in variants(kids[j]):
+                        yield ("elem", t[1], t[2], t[3], kids[:j] + [v] + kids[j + 1:])
+        changed, budget = True, 400
+        while changed and budget > 0:
+            changed = False
+            for v in variants(doc):
+                budget -= 1
+                if budget <= 0:
+                    break
+                try:
+                    if outcome(conf.render(v), opts)[0]:
+                        doc, changed = v, True
+                        break
+                except Exception:
+                    pass
+        return doc
+    n = ctx.scale(120, 3000)
+    for i in range(n + len(extra)):
+        doc = None
+        if i < n:
+            doc = conf.G(ctx.rng).document()
+            text = conf.render(doc)
+        else:
+            text = "<!DOCTYPE html><html><head><title>t</title></head><body>" + extra[i - n] + "</body></html>"
+        for opts in ({"sanitize": True}, {"sanitize": True, "strip_whitespace": True}, {"strip_whitespace": True}, {"alphabetical_attributes": True}):
+            try:
+                bad, a, b = outcome(text, opts)
+                ta, tb = (0, 1) if bad else (0, 0)
+            except Exception as e:
+                ctx.fail("pipeline-raises:%s" % type(e).__name__, "serializer pipeline raised on a conforming document", {"input": text[:500], "options": opts})
+                continue
+            ctx.case("pipeline", "%s|%s" % (text, sorted(opts)), nontrivial=(a != b))
+            if ta != tb:
+                if doc is not None:
+                    text = conf.render(shrink_doc(doc, opts))
+                    _, a, b = outcome(text, opts)
+                # the two recorded window deviations cannot change a tree; anything else is new
+                ctx.fail("pipeline-omission-changes-tree:%s" % "+".join(sorted(opts)), "with omit_optional_tags the serializer pipeline's output "
+                         "re-parses to another tree than without", {"input": text[:600], "options": opts, "with": b[:400], "without": a[:400]})
 
 
 def replay(path):
